@@ -722,6 +722,15 @@ def regenerate_transform(source_fn):
 #######################
 
 
+def _tag_untagged_leaves(retval_diffs):
+    # Return leaves which are literals in the source come back from the
+    # incremental interpreter without a tag: they cannot have changed. Leaves
+    # which already carry a tag keep it.
+    return Diff.tree_diff(
+        Diff.tree_primal(retval_diffs), Diff.tree_tangent(retval_diffs)
+    )
+
+
 @Pytree.dataclass
 class StaticGenerativeFunction(Generic[R], GenerativeFunction[R]):
     """A `StaticGenerativeFunction` is a generative function which relies on program
@@ -843,8 +852,7 @@ class StaticGenerativeFunction(Generic[R], GenerativeFunction[R]):
                 bwd_requests,
             ),
         ) = update_transform(self.source)(key, trace, constraint, argdiffs)
-        if not Diff.static_check_tree_diff(retval_diffs):
-            retval_diffs = Diff.no_change(retval_diffs)
+        retval_diffs = _tag_untagged_leaves(retval_diffs)
 
         def make_bwd_request(traces, subconstraints):
             addresses = traces.keys()
@@ -883,6 +891,7 @@ class StaticGenerativeFunction(Generic[R], GenerativeFunction[R]):
                 bwd_requests,
             ),
         ) = static_edit_request_transform(self.source)(key, trace, addressed, argdiffs)
+        retval_diffs = _tag_untagged_leaves(retval_diffs)
 
         def make_bwd_request(
             traces: dict[StaticAddress, Trace[R]],
@@ -925,6 +934,7 @@ class StaticGenerativeFunction(Generic[R], GenerativeFunction[R]):
         ) = regenerate_transform(self.source)(
             key, trace, selection, edit_request, argdiffs
         )
+        retval_diffs = _tag_untagged_leaves(retval_diffs)
 
         def make_bwd_request(
             traces: dict[StaticAddress, Trace[R]],
